@@ -163,6 +163,8 @@ class C18(Prop):
             D(M({'a': Stext("f'{b}'", 'fstr'), 'b': S(1)})),                                                                               # D17h
             D(M({'a': Q([S(1)], tag='append')}, kw={'prio': 1}), M({'a': Q([S(0)])})),                                                     # D17i
             dict(D(M({'a': S(5)})), doc={'raw': M({'a': S(5, kw={'safe': True})}), 'safe': False}),                                       # D17j  !safe
+            dict(D(M({'a': S(1)})), doc={'raw': M({'p': Q([S('d')], tag={'k': 'path', 'f': 'parent(1)'}), 'q': Q([S('e'), S('f.txt')], tag={'k': 'path', 'f': 'parent'}),
+                                                    'r': Q([S('g')], tag={'k': 'path', 'f': 'file'}), 's': Q([], tag={'k': 'path', 'f': 'parent(2)'})}), 'src': '/cfg/sub/main.yaml'}),
         ]
 
     def clean(self, doc):
@@ -186,6 +188,11 @@ class C18(Prop):
                 base = doc['raw']
                 seq.append({'raw': G.gen_override(rng, G.MERGECTL if rng.random() < 0.7 else G.PLAIN, base, 2, 0.3)})
             st = self.STYLES[rng.randrange(len(self.STYLES))] if rng.random() < 0.3 else self.STYLES[0]
+            if rng.random() < 0.12 and 'm' in doc['raw']:
+                # file-relative !path nodes in a document that knows its file: the dump must keep denoting the same location
+                doc = dict(doc, src=rng.choice(['/cfg/main.yaml', '/cfg/sub/deep/x.yaml', 'rel/dir/x.yaml']))
+                doc['raw'] = dict(doc['raw'], m=doc['raw']['m'] + [['pp' + str(i), Q([S(c) for c in rng.sample(['d', 'e', 'f.txt'], rng.choice([0, 1, 2]))],
+                                   tag={'k': 'path', 'f': rng.choice(['parent(1)', 'parent(2)', 'parent', 'file', 'parent(0)'])})] for i in range(rng.choice([1, 2]))])
             out.append({'doc': doc, 'seq': seq, 'style': list(st)})
         return out
 
@@ -240,6 +247,18 @@ class C18(Prop):
             b = build_texts(seq[:pos] + [(d1, doc)] + seq[pos:], self.WORLD)
             subs.append({'pos': pos, 'orig': a, 'dumped': b})
         obs['subs'] = subs
+        if doc.get('src') and '"path"' in json.dumps(doc['raw']):
+            # a dump is a snapshot that may be stored anywhere: parsed from another location it must denote the same paths
+            a = build_texts([(text, doc)], self.WORLD)
+            b = build_texts([(d1, dict(doc, src='/elsewhere/snap/dump.yaml'))], self.WORLD)
+            def paths(v, out):
+                if isinstance(v, dict):
+                    if 'path' in v: out.append(v['path'])
+                    for x in v.values(): paths(x, out)
+                elif isinstance(v, list):
+                    for x in v: paths(x, out)
+                return out
+            obs['moved'] = [paths(a, []), paths(b, [])]
         return obs
 
     # ------------------------------------------------------------------ model
@@ -331,6 +350,9 @@ class C18(Prop):
             out.append((self.classify_tree_diff(d, tr, eff(io['t']), eff(io['t2'])), 're-parsed tree differs: ' + d))
         if io.get('unsafe_marks_lost'):
             out.append(('dump-safe-elided', f"explicit !unsafe marks are missing from the dump (loaded as a safe source the nodes at {io['unsafe_marks_lost'][:3]} are safe): {io['d1'][:150]!r}"))
+        mv = io.get('moved')
+        if mv and mv[0] != mv[1] and len(mv[0]) == len(mv[1]) and 'path-noref' not in tr:
+            out.append(('dump-path-location', f'the dump parsed from another location denotes other paths: {mv[0][:3]} vs {mv[1][:3]}'))
         for s in io.get('subs', []):
             a, b = no_addr(s['orig']), no_addr(s['dumped'])
             d = first_diff(a, b)
